@@ -92,6 +92,9 @@ def run_crosshair(mod, fn, timeout, twin):
         out['status'] = 'counterexample'
         m = re.search(r'when calling (.*?)(?: \(which returns .*\))?$', worst.message, re.S)
         out['call'] = m.group(1) if m else None
+        if not m:
+            # e.g. "NotDeterministic: ..." - CrossHair could not complete the path; nothing to replay
+            out['status'] = 'inconclusive'
     else:
         out['status'] = 'harness_error'
     return out
